@@ -402,9 +402,11 @@ func (l *log) delete(offsets map[int64]struct{}) ([]Message, int64, error) {
 	verifhook.Pause("delete.target-chosen")
 
 	wasWriter := false
+	var writerVersion message.Version
 	l.writerMu.Lock()
 	if l.writer.reader == rdr {
 		wasWriter = true
+		writerVersion = l.writer.messages.Version()
 		if err := l.writer.Sync(); err != nil {
 			l.writerMu.Unlock()
 			return nil, 0, err
@@ -417,7 +419,7 @@ func (l *log) delete(offsets map[int64]struct{}) ([]Message, int64, error) {
 	if l.opts.Version.KeepRewriteVersion {
 		var detected message.Version
 		if wasWriter {
-			detected = l.writer.messages.Version()
+			detected = writerVersion
 		} else {
 			mr, err := message.OpenReader(rdr.segment.Log, rdr.segment.Offset)
 			if err != nil {
